@@ -166,6 +166,8 @@ ILess(a, b, signed) ==
 IEq(a, b) == IQ(a) = IQ(b) /\ IR(a) = IR(b)
 IMinS == Sym(1, 0)     \* MIN of a signed type
 IMaxS == Sym(1, -1)    \* MAX of a signed type
+\* 64-bit attribute values far outside every axis range (TLC integers are 32 bits wide): MIN, MIN+1, MAX, MAX-1, and +-(2^31-1)
+ExtremeI64 == <<IMinS, Sym(1, 1), IMaxS, Sym(1, -2), Fin(2147483647), Fin(-2147483647)>>
 IMaxU == Fin(-1)         \* MAX of an unsigned type (all ones)
 \* truncating division: decided for small/small and for division by +-1
 IDivDefined(a, b, signed) ==
